@@ -109,8 +109,14 @@ def digitsVal (cs : List Char) : Option Nat :=
     let a ← acc
     if '0' ≤ ch ∧ ch ≤ '9' then pure (a * 10 + (ch.toNat - '0'.toNat)) else none) (some 0)
 
-/-- integer part of a decimal floating point literal `ddd[.ddd][e[+-]dd]` (at least one mantissa digit) -/
-def parseFloatFloor (cs : List Char) : Option Nat := do
+/-- SQLite's default maximum length of a string or BLOB; `maxBlobLength` in processor.go -/
+def maxBlobLength : Nat := 1000000000
+
+def int64Max : Nat := 9223372036854775807
+
+/-- a decimal floating point literal `ddd[.ddd][e[+-]dd]` (at least one mantissa digit) as
+`(m, e)` meaning m × 10^e, exactly -/
+def parseDecimal (cs : List Char) : Option (Nat × Int) := do
   let mant := cs.takeWhile (fun ch => ch != 'e' && ch != 'E')
   let expPart := (cs.dropWhile (fun ch => ch != 'e' && ch != 'E')).drop 1
   let hasExp := cs.any (fun ch => ch == 'e' || ch == 'E')
@@ -124,22 +130,40 @@ def parseFloatFloor (cs : List Char) : Option Nat := do
     | r => (false, r)
   if hasExp && ed.isEmpty then none
   let e ← digitsVal ed
-  -- value = m * 10^(±e - |fp|)
-  if neg then pure (m / 10 ^ (e + fp.length))
-  else if e ≥ fp.length then pure (m * 10 ^ (e - fp.length))
-  else pure (m / 10 ^ (fp.length - e))
+  pure (m, (if neg then -(e : Int) else (e : Int)) - (fp.length : Int))
 
-/-- the byte count `randomblob` is given by a NumberLit: `strconv.Atoi`, else a `0x` literal,
-else the integer part of a floating point literal (the scanner never puts a sign into a NumberLit) -/
-def parseIntLit (v : String) : Option Nat :=
+/-- `strconv.ParseFloat(v) = f, nil ∧ f <= maxBlobLength`, then `int(f)`: the value m × 10^e is
+compared and truncated exactly (Go compares the nearest double: the two differ only for literals
+within one ulp of the bound or of an integer, which the scanner's callers do not write) -/
+def floatBytes (cs : List Char) : Option Nat := do
+  let (m, e) ← parseDecimal cs
+  if e ≥ 0 then
+    let v := m * 10 ^ e.toNat
+    if v ≤ maxBlobLength then some v else none
+  else
+    let d := 10 ^ (-e).toNat
+    if m ≤ maxBlobLength * d then some (m / d) else none
+
+/-- the byte count `Visit` derives from the NumberLit argument of randomblob, `none` = the call is
+left alone. Transcribed from processor.go:
+  `n, err := strconv.Atoi(v)` (decimal digits, value within int64);
+  else `strconv.ParseInt(v, 0, 64)` with a `0x` prefix (value within int64);
+  else `strconv.ParseFloat(v, 64)` with `f <= maxBlobLength`, `n = int(f)`; else leave alone;
+  then `if n > maxBlobLength` leave alone (SQLite rejects such a blob on every node alike). -/
+def blobLen (v : String) : Option Nat :=
   let cs := v.toList
-  match (if cs.isEmpty then none else digitsVal cs) with
-  | some n => some n
-  | none =>
-    match cs with
-    | '0' :: 'x' :: hs => parseHex hs
-    | '0' :: 'X' :: hs => parseHex hs
-    | _ => parseFloatFloor cs
+  let n : Option Nat :=
+    match (if cs.isEmpty then none else digitsVal cs) with
+    | some n => if n ≤ int64Max then some n else floatBytes cs   -- Atoi range error: falls to ParseFloat
+    | none =>
+      match cs with
+      | '0' :: 'x' :: hs => (parseHex hs).bind fun h => if h ≤ int64Max then some h else none
+      | '0' :: 'X' :: hs => (parseHex hs).bind fun h => if h ≤ int64Max then some h else none
+      | _ => floatBytes cs
+  n.bind fun n => if n > maxBlobLength then none else some n
+
+/-- kept under its old name for the proofs: the literal is one the rewriter replaces -/
+def parseIntLit (v : String) : Option Nat := blobLen v
 
 /-- replace the first / second argument when it is `now` -/
 def replNow0 (c : Cfg) : Nodes → Nodes
